@@ -161,22 +161,15 @@ def r5_ownership_and_effect_errors_are_values(ctx):
               "the worker loop no longer reports WorkerError on failure (the environment would wait forever)")
 
 
-def run(ctx):
-    r1_census(ctx)
-    if os.environ.get("QV_CENSUS_GEN") == "1":
-        r3_fatal_errors(ctx)
-        return ("table generation", "n/a")
-    r2_error_writes(ctx)
-    r3_fatal_errors(ctx)
+def r4_shared_protocol(ctx):
     # propagation to every awaiter: the await registration / reporting protocol (shared with C04) and the error payload (shared with C05)
     before = len(ctx.obs)
-    c04.r6_await_registration(ctx)
-    c05.r3_error_propagation(ctx)
-    c05.r4b_answers_not_dropped(ctx)
-    try:
-        c05.r4_latest_answer_replaces(ctx)
-    except CheckError as e:
-        ctx.note("R-C15-4c skipped: %s" % e)
+    sub = []
+    for f in (c04.r6_await_registration, c05.r3_error_propagation, c05.r4b_answers_not_dropped, c05.r4_latest_answer_replaces):
+        try:
+            f(ctx)
+        except CheckError as e:
+            sub.append(str(e))
     ren = {"R-C04-6": "R-C15-4a", "R-C05-3": "R-C15-4b", "R-C05-4": "R-C15-4c", "R-C05-4b": "R-C15-4d"}
     for o in ctx.obs[before:]:
         o["rule"] = ren.get(o["rule"], o["rule"])
@@ -185,7 +178,16 @@ def run(ctx):
             ctx.rules[new] = ctx.rules.pop(old)
     for f in ctx.floors:
         f["rule"] = ren.get(f["rule"], f["rule"])
-    r5_ownership_and_effect_errors_are_values(ctx)
+    if sub:
+        raise CheckError("; ".join(sub))
+
+
+def run(ctx):
+    if os.environ.get("QV_CENSUS_GEN") == "1":
+        r1_census(ctx)
+        r3_fatal_errors(ctx)
+        return ("table generation", "n/a")
+    ctx.run_rules([r1_census, r2_error_writes, r3_fatal_errors, r4_shared_protocol, r5_ownership_and_effect_errors_are_values])
     ctx.note("worker panics reachable from pure builtins are decided under C12 (the fn-pointer call is the boundary)")
     return (
         "Decides structural clauses: a deny-by-default census of every panic-capable construct on the worker/environment/executor step paths "
